@@ -79,6 +79,10 @@ def _op(draw, counter):
                                            [["a", "a"]], []]))
     elif name in ("modify", "modify_if"):
         op["pairs"] = [[draw(st.sampled_from(["a", "b", "c", "e"])), draw(_fn())]]
+        if draw(st.booleans()):
+            # a second pair whose function reads the key the first pair assigns (pairs apply one after another)
+            k2 = draw(st.sampled_from([k for k in ["a", "b", "c", "e"] if k != op["pairs"][0][0]]))
+            op["pairs"].append([k2, draw(st.sampled_from([["copy", op["pairs"][0][0]], ["copy", "_id"], ["const", 7]]))])
         if name == "modify_if":
             op["pred"] = draw(_pred())
     elif name == "fill":
